@@ -49,6 +49,10 @@ type c16Config struct {
 	// Greeting: the handler sends a message before it reads anything, and the client sends its
 	// first request only once that message has arrived.
 	Greeting bool
+	// ClientStream: a client-streaming method; the handler answers after the FIRST request
+	// message and then reads the rest of the requests; the client sends its further messages
+	// only once that answer has arrived.
+	ClientStream bool
 }
 
 // c16BufferingWriter is such a middleware writer.
@@ -81,7 +85,7 @@ func (b *c16BufferingWriter) Flush() {
 func (b *c16BufferingWriter) Unwrap() http.ResponseWriter { return b.inner }
 
 func (k c16Config) String() string {
-	return fmt.Sprintf("%s/%s/%s>%s/%s/%v rounds=%d size=%d read=%d flush=%v split=%v wrapped=%v", k.Client, k.ClientCod, k.ClientComp, k.Target, k.TargetCod, k.TargetComp, k.Rounds, k.Size, k.ReadStyle, k.HandlerFl, k.SplitWrite, k.Wrapped) + map[bool]string{true: " two-responses-per-write", false: ""}[k.Double] + map[bool]string{true: " handler-speaks-first", false: ""}[k.Greeting]
+	return fmt.Sprintf("%s/%s/%s>%s/%s/%v rounds=%d size=%d read=%d flush=%v split=%v wrapped=%v", k.Client, k.ClientCod, k.ClientComp, k.Target, k.TargetCod, k.TargetComp, k.Rounds, k.Size, k.ReadStyle, k.HandlerFl, k.SplitWrite, k.Wrapped) + map[bool]string{true: " two-responses-per-write", false: ""}[k.Double] + map[bool]string{true: " handler-speaks-first", false: ""}[k.Greeting] + map[bool]string{true: " client-stream-answered-early", false: ""}[k.ClientStream]
 }
 
 type c16Result struct {
@@ -222,6 +226,9 @@ func c16Exec(k c16Config, prefix []int) (*sched.Run, *c16Result) {
 					}
 					res.HandlerGot = append(res.HandlerGot, canonMsg(codec, world.MsgDesc(), payload))
 				}
+				if k.ClientStream && i > 1 {
+					continue // (the one response has been sent; the remaining requests are only read)
+				}
 				out := Enc(codec, c16Msg(100+i, k.Size))
 				fl := byte(0)
 				if comp != nil && len(out) > 0 {
@@ -276,7 +283,11 @@ func c16Exec(k c16Config, prefix []int) (*sched.Run, *c16Result) {
 			res.Problem = "setup: " + err.Error()
 			return
 		}
-		cr := &wire.ClientReq{Form: k.Client, Path: world.SvcPath + "Bidi", Codec: k.ClientCod, Compression: k.ClientComp}
+		rpcMethod := "Bidi"
+		if k.ClientStream {
+			rpcMethod = "CStream"
+		}
+		cr := &wire.ClientReq{Form: k.Client, Path: world.SvcPath + rpcMethod, Codec: k.ClientCod, Compression: k.ClientComp}
 		method, target, hdr, _ := cr.Encode()
 		spec := &drive.ReqSpec{Method: method, Target: target, Header: hdr, ContentLength: -1, ProtoMajor: 2, Body: body}
 		req, err := spec.Build(context.Background())
@@ -317,6 +328,9 @@ func c16Exec(k c16Config, prefix []int) (*sched.Run, *c16Result) {
 				perRound := 1
 				if k.Double {
 					perRound = 2
+				}
+				if k.ClientStream && i > 1 {
+					perRound = 0 // (nothing to wait for: the response came after the first request)
 				}
 				for j := 0; j < perRound; j++ {
 					// wait for response i to be completely visible
@@ -430,6 +444,8 @@ func c16Configs(tier string) []c16Config {
 										Rounds: n, Size: sz, HandlerFl: fl == 1, SplitWrite: sp == 1, Double: true})
 									out = append(out, c16Config{Client: cf, Target: tf, ClientCod: codecs[0], TargetCod: codecs[1], ClientComp: cp.c, TargetComp: cp.t,
 										Rounds: n, Size: sz, HandlerFl: fl == 1, SplitWrite: sp == 1, Greeting: true})
+									out = append(out, c16Config{Client: cf, Target: tf, ClientCod: codecs[0], TargetCod: codecs[1], ClientComp: cp.c, TargetComp: cp.t,
+										Rounds: n + 1, Size: sz, HandlerFl: fl == 1, SplitWrite: sp == 1, ClientStream: true})
 								}
 							}
 						}
@@ -531,6 +547,10 @@ func c16Judge(k c16Config, run *sched.Run, res *c16Result) [][2]string {
 	if k.Greeting {
 		greet = 1
 	}
+	wantResponses := (k.Rounds + greet) * perRound
+	if k.ClientStream {
+		wantResponses = 1
+	}
 	switch {
 	case run.Deadlock:
 		fail("C16.deadlock", "client and handler are both blocked (%v) after %d client responses / %d handler requests: a message was not forwarded when complete", run.Blocked, len(res.ClientGot), len(res.HandlerGot))
@@ -540,10 +560,16 @@ func c16Judge(k c16Config, run *sched.Run, res *c16Result) [][2]string {
 		fail("C16.livelock", "step horizon reached")
 	case res.Problem != "":
 		fail("C16.exchange-broken", "%s", res.Problem)
-	case !res.ClientDone || !res.HandlerDone || len(res.ClientGot) != (k.Rounds+greet)*perRound || len(res.HandlerGot) != k.Rounds:
+	case !res.ClientDone || !res.HandlerDone || len(res.ClientGot) != wantResponses || len(res.HandlerGot) != k.Rounds:
 		fail("C16.exchange-incomplete", "client done=%v handler done=%v responses=%d requests=%d", res.ClientDone, res.HandlerDone, len(res.ClientGot), len(res.HandlerGot))
 	default:
 		for i := 0; i < k.Rounds; i++ {
+			if k.ClientStream && i > 0 {
+				if want := canonMsg("proto", world.MsgDesc(), Enc("proto", c16Msg(i+1, k.Size))); res.HandlerGot[i] != want {
+					fail("C16.wrong-message", "request %d: got %s", i+1, short(res.HandlerGot[i]))
+				}
+				continue
+			}
 			if want := canonMsg("proto", world.MsgDesc(), Enc("proto", c16Msg(100+i+1, k.Size))); res.ClientGot[(i+greet)*perRound] != want {
 				fail("C16.wrong-message", "response %d: got %s", i+1, short(res.ClientGot[(i+greet)*perRound]))
 			}
